@@ -36,6 +36,27 @@ def functional(tag, is_str=False, nargs=1):
     return E.BasicFunctionalExpression("run ecb_" + tag, E.BasicExpressionList([OpqExp("%s_a%d" % (tag, k)) for k in range(1, nargs + 1)]), is_str_expr=is_str)
 
 
+def read_targets_through_filter():
+    """through convert(): with an empty DATA item every numeric READ target goes through a string temporary and the read filter - a
+    convertible function in the subscript of such a target is called once, before the filter call that stores into the element"""
+    def run():
+        import re
+        from coco.b09.compiler import convert
+        res = []
+        src = "10 DATA 1,,3\n20 READ A(INT(I/2)),B$,C(BUTTON(0)+JOYSTK(1))\n30 READ D(INT(J))\n40 READ E,F(2),G$\n"
+        want = {"20": ["ecb_int", "ecb_read_filter", "ecb_button", "ecb_joystk", "ecb_read_filter"], "30": ["ecb_int", "ecb_read_filter"], "40": ["ecb_read_filter", "ecb_read_filter"]}
+        for filt in (False, True):
+            text = convert(src, add_standard_prefix=False, filter_unused_linenum=False, initialize_vars=filt)
+            for num, names in want.items():
+                line = next((l for l in text.split("\n") if l.startswith(num + " ")), "")
+                got = re.findall(r"RUN (\w+)\(", line, flags=re.I)
+                stores = re.findall(r"ecb_read_filter\(tmp_\d+\$, ([^\\]*?)\)\s*(?:\\|$)", line)
+                empty = [t for t in stores if re.search(r"\(\s*[+\-*/]?\s*\)|^arr_\w+\$?$", t)]
+                res.append(ob("read-filter/calls in the subscripts of READ targets, line %s,init=%d" % (num, filt), sorted(got) == sorted(names) and got[-1:] == names[-1:] and not empty, names, got if not empty else "subscript lost: %s" % empty, line))
+        return res
+    return guarded("read-filter", run)
+
+
 def direct_delivery():
     """`target = F(args)` is exactly one call that stores into the target, for every kind of target, with and without LET (shared with C07: the emitted
     statement is a RUN statement, not `LET RUN ...`)"""
@@ -181,6 +202,7 @@ def patcher_steps():
     out += guarded("patch/assignment of a wrapped call", step6)
 
     out += direct_delivery()
+    out += read_targets_through_filter()
     return out
 
 
